@@ -5,8 +5,9 @@ From Coq Require Import ZArith List Bool Arith Lia Permutation.
 From Life Require Import LifeSpec LifeModel LifeBase LifeLoops.
 Import ListNotations.
 
+(* an array constructed with Array(capacity) has a capacity but no storage yet *)
 Definition awf (a : arr) : Prop :=
-  (astore a = None -> acap a = 0 /\ aelems a = []) /\ (astore a <> None -> 0 < acap a).
+  (astore a = None -> aelems a = []) /\ (astore a <> None -> 0 < acap a).
 Definition ablks (a : arr) : list blk := match astore a with Some b => [b] | None => [] end.
 Definition avals (w : world) (a : arr) : list Z := map (val w) (aelems a).
 
@@ -17,7 +18,9 @@ Lemma or3_pos n : 0 < or3 n.
 Proof. unfold or3. pose proof (Nat.mod_upper_bound n 4). pose proof (Nat.mod_le n 4). lia. Qed.
 
 Lemma awf_new : awf arr_new.
-Proof. split; [intros _; split; reflexivity | intros Q; exfalso; apply Q; reflexivity]. Qed.
+Proof. split; [intros _; reflexivity | intros Q; exfalso; apply Q; reflexivity]. Qed.
+Lemma awf_new_cap n : awf (arr_new_cap n).
+Proof. split; [intros _; reflexivity | intros Q; exfalso; apply Q; reflexivity]. Qed.
 
 Ltac twf T := exact (t_wf _ _ _ _ _ _ T).
 
@@ -65,7 +68,7 @@ Proof.
       * pose proof (or3_ge (Nat.max (acap a) n)). lia.
       * intros _ Q. discriminate.
       * intros Q1 _. exfalso. apply orb_true_iff in C. destruct C as [C|C]; [apply Nat.ltb_lt in C; lia | discriminate].
-    + destruct (WF eq_refl) as [C0 E0].
+    + pose proof (WF eq_refl) as E0.
       eexists _, _. split; [reflexivity|]. cbn [aelems astore acap ablks].
       split; [|split; [|split; [|split; [|split]]]].
       * rewrite E0. unfold ablks. rewrite St. cbn [ablks astore]. exact T.
@@ -84,6 +87,49 @@ Qed.
 
 Lemma avals_len w w' a a' : avals w' a' = avals w a -> length (aelems a') = length (aelems a).
 Proof. unfold avals. intros E. apply (f_equal (@length Z)) in E. rewrite !map_length in E. exact E. Qed.
+
+Lemma map_eq_nil' {A B} (f : A -> B) l : map f l = [] -> l = [].
+Proof. destruct l; [auto | discriminate]. Qed.
+
+(* an array without storage holds nothing; reserve() gives it storage when asked for room *)
+Lemma arr_reserve_none_ok a n w :
+  wfw w -> awf a -> astore a = None ->
+  exists a' w', arr_reserve a n w = Ok (a', w') /\
+    trans w w' [] [] [] (ablks a') /\ aelems a' = [] /\ awf a' /\ n <= acap a' /\ (0 < n -> astore a' <> None) /\
+    (astore a' = None -> n = 0).
+Proof.
+  intros W WF St. pose proof (proj1 WF St) as E0.
+  destruct (arr_reserve_ok a n w W) as (a1 & w1 & E1 & T1 & V1 & WF1 & C1 & S1 & _); auto.
+  { rewrite E0. intro x. cbn. lia. }
+  { unfold ablks. rewrite St. intro x. cbn. lia. }
+  exists a1, w1. split; [exact E1|].
+  assert (L1 : aelems a1 = []).
+  { unfold avals in V1. rewrite E0 in V1. cbn [map] in V1. eapply map_eq_nil'; eauto. }
+  rewrite E0, L1 in T1. unfold ablks at 1 in T1. rewrite St in T1.
+  split; [exact T1|]. split; [exact L1|]. split; [exact WF1|]. split; [exact C1|]. split; [exact S1|].
+  intros Q. destruct n; [reflexivity|]. exfalso. apply S1; [lia | exact Q].
+Qed.
+
+(* append into an array that has a capacity but no storage yet (Array(capacity)) *)
+Lemma arr_append_fit_none_ok a r w :
+  wfw w -> awf a -> astore a = None -> In r (dom (heap w)) ->
+  exists a' w', arr_append_fit a r w = Ok (a', w') /\
+    trans w w' (aelems a) (aelems a') (ablks a) (ablks a') /\
+    avals w' a' = avals w a ++ [val w r] /\ awf a'.
+Proof.
+  intros W WF St I. unfold arr_append_fit. pose proof (proj1 WF St) as E0.
+  destruct (arr_reserve_none_ok a (S (length (aelems a))) w W WF St) as (a1 & w1 & E1 & T1 & L1 & WF1 & C1 & S1 & _). run E1.
+  assert (I1 : In r (dom (heap w1))) by (eapply trans_live; [exact T1 | exact I | tauto]).
+  destruct (mk_copy_ok w1 r ltac:(twf T1) I1) as (E2 & T2 & V2). run E2.
+  eexists _, _. split; [reflexivity|]. unfold set_elems. cbn [aelems astore acap].
+  split; [|split].
+  - rewrite E0, L1. cbn [app]. unfold ablks at 1 2. cbn [astore]. rewrite St. fold (ablks a1).
+    eapply (trans_seq [] [] [] (ablks a1) _ _ _ _ _ _ _ _ _ _ _ _ _ _ _ T1 T2); msolve.
+  - unfold avals. cbn [aelems]. rewrite E0, L1. cbn [map app]. f_equal. rewrite V2.
+    eapply trans_val; [exact T1 | exact I | tauto].
+  - destruct WF1 as [WFa WFb]. split; cbn [astore acap aelems]; auto.
+    intro Q. exfalso. apply S1; [lia | exact Q].
+Qed.
 
 (* append when no reallocation happens *)
 Lemma arr_append_fit_ok a r w :
@@ -151,10 +197,11 @@ Proof.
         -- eapply holds_in; [eapply trans_holds; [exact T13 | exact H] | right; auto].
         -- intros [Q|[]]. subst i. tauto.
   - apply Nat.ltb_ge in C.
-    assert (St : astore a <> None).
-    { intro Q. destruct (proj1 WF Q) as [C0 _]. lia. }
-    destruct (arr_append_fit_ok a r w W H Hb WF C St I) as (a' & w' & E & T & V & WF' & _).
-    exists a', w'. auto.
+    destruct (astore a) eqn:St.
+    + assert (St' : astore a <> None) by (rewrite St; discriminate).
+      destruct (arr_append_fit_ok a r w W H Hb WF C St' I) as (a' & w' & E & T & V & WF' & _).
+      exists a', w'. auto.
+    + apply arr_append_fit_none_ok; auto.
 Qed.
 
 Lemma holds_sub w A B : holds w B -> mle A B -> holds w A.
@@ -171,9 +218,6 @@ Proof. intros T H I. eapply holds_in; [eapply trans_holds; eauto | exact I]. Qed
 
 Lemma mk_live w v e : In (nxt w) (dom (heap (w_mk w v e))).
 Proof. cbn [w_mk heap]. rewrite dom_cons. left. auto. Qed.
-
-Lemma map_eq_nil' {A B} (f : A -> B) l : map f l = [] -> l = [].
-Proof. destruct l; [auto | discriminate]. Qed.
 
 Lemma arr_resize_fit_ok a n r w :
   wfw w -> holds w (aelems a) -> holdsb w (ablks a) -> awf a ->
@@ -193,9 +237,30 @@ Proof.
   - unfold avals. cbn [aelems]. rewrite map_app. f_equal; [|exact V2].
     eapply trans_keep_map; [exact T2|]. intros i J. split; [eapply holds_in; eauto | tauto].
   - destruct WF as [WFa WFb]. split; cbn [astore acap aelems]; auto.
-    intro Q. destruct (WFa Q) as [C0 E0]. split; auto.
+    intro Q. pose proof (WFa Q) as E0.
     destruct St as [St|St]; [tauto|]. subst n. cbn [Nat.sub repeat] in V2.
     apply map_eq_nil' in V2. rewrite V2, E0. reflexivity.
+Qed.
+
+(* resize of an array that has a capacity but no storage yet *)
+Lemma arr_resize_fit_none_ok a n r w :
+  wfw w -> awf a -> astore a = None -> In r (dom (heap w)) ->
+  exists a' w', arr_resize_fit a n r w = Ok (a', w') /\
+    trans w w' (aelems a) (aelems a') (ablks a) (ablks a') /\
+    avals w' a' = avals w a ++ repeat (val w r) (n - length (aelems a)) /\ awf a'.
+Proof.
+  intros W WF St I. unfold arr_resize_fit. pose proof (proj1 WF St) as E0.
+  destruct (arr_reserve_none_ok a n w W WF St) as (a1 & w1 & E1 & T1 & L1 & WF1 & C1 & S1 & Z1). run E1.
+  destruct (trans_keep _ _ _ _ _ _ r T1 I (fun x => x)) as [Vr I1].
+  destruct (fill_ok (n - length (aelems a1)) w1 r ltac:(twf T1) I1) as (l' & w' & E2 & T2 & V2). run E2.
+  eexists _, _. split; [reflexivity|]. unfold set_elems. cbn [aelems astore acap].
+  split; [|split].
+  - rewrite E0, L1. cbn [app]. unfold ablks at 1 2. cbn [astore]. rewrite St. fold (ablks a1).
+    eapply (trans_seq [] [] [] (ablks a1) _ _ _ _ _ _ _ _ _ _ _ _ _ _ _ T1 T2); msolve.
+  - unfold avals. cbn [aelems]. rewrite E0, L1. cbn [map app length]. rewrite V2, L1, Vr. reflexivity.
+  - destruct WF1 as [WFa WFb]. split; cbn [astore acap aelems]; auto.
+    intro Q. rewrite L1. cbn [app]. rewrite (Z1 Q) in V2. cbn [Nat.sub repeat] in V2.
+    eapply map_eq_nil'; eauto.
 Qed.
 
 Lemma arr_resize_ok a n r w :
@@ -223,7 +288,7 @@ Proof.
       * intro K. rewrite nodup_cnt in ND. specialize (ND i). apply in_cnt in J. apply in_cnt in K.
         autorewrite with cntdb in ND. lia.
     + destruct WF as [WFa WFb]. split; cbn [astore acap aelems]; auto.
-      intro Q. destruct (WFa Q) as [C0 E0]. split; auto. rewrite E0. apply firstn_nil.
+      intro Q. rewrite (WFa Q). apply firstn_nil.
   - apply Nat.ltb_ge in C1.
     assert (FA : firstn n (avals w a) = avals w a).
     { apply firstn_all2. unfold avals. rewrite map_length. exact C1. }
@@ -263,10 +328,11 @@ Proof.
            ++ eapply in_new; [exact T13 | exact H | right; auto].
            ++ intros [Q|[]]. subst i. tauto.
     + apply Nat.ltb_ge in C.
-      assert (St : astore a <> None \/ n = 0).
-      { destruct (astore a) eqn:Q; [left; discriminate|]. right. destruct (proj1 WF Q) as [C0 _]. lia. }
-      destruct (arr_resize_fit_ok a n r w W H Hb WF C St I) as (a' & w' & E & T & V & WF').
-      exists a', w'. auto.
+      destruct (astore a) eqn:Q.
+      * assert (St : astore a <> None \/ n = 0) by (left; rewrite Q; discriminate).
+        destruct (arr_resize_fit_ok a n r w W H Hb WF C St I) as (a' & w' & E & T & V & WF').
+        exists a', w'. auto.
+      * apply arr_resize_fit_none_ok; auto.
 Qed.
 
 (* list facts for remove *)
@@ -344,7 +410,7 @@ Proof.
         rewrite nodup_cnt in NDs. specialize (NDs j). specialize (Qs j). apply in_cnt in J.
         autorewrite with cntdb in Qs. rewrite <- Ela, Q, one_same in Qs. lia.
   - destruct WF as [WFa WFb]. split; cbn [astore acap aelems]; auto.
-    intro Q. destruct (WFa Q) as [C0 E0]. exfalso. unfold l in Li. rewrite E0 in Li. cbn in Li. lia.
+    intro Q. pose proof (WFa Q) as E0. exfalso. unfold l in Li. rewrite E0 in Li. cbn in Li. lia.
 Qed.
 
 Lemma arr_clear_ok a w :
@@ -374,7 +440,7 @@ Proof.
     destruct (bfree_ok w1 b ltac:(twf T) Ib) as [E2 T2].
     exists (w_bfree w1 b). split; [exact E2|].
     eapply (trans_seq [] [] [b] [] _ _ _ _ _ _ _ _ _ _ _ _ _ _ _ T T2); msolve.
-  - exists w. split; [reflexivity|]. rewrite (proj2 (proj1 WF St)). apply trans_refl. auto.
+  - exists w. split; [reflexivity|]. rewrite (proj1 WF St). apply trans_refl. auto.
 Qed.
 
 Lemma arr_copy_new_ok o w :
@@ -399,11 +465,12 @@ Proof.
   - unfold avals. cbn [aelems]. rewrite V2.
     eapply trans_keep_map; [exact T1|]. intros i J. split; [eapply holds_in; eauto | tauto].
   - destruct WF1 as [WFa WFb]. split; cbn [astore acap aelems]; auto.
-    intro Q. destruct (WFa Q) as [C0 _]. split; auto.
-    assert (Z0 : acap o = 0) by lia.
+    intro Q.
+    assert (Z0 : acap o = 0).
+    { destruct (Nat.eq_dec (acap o) 0) as [Z|Z]; [exact Z|]. exfalso. apply S1; [lia | exact Q]. }
     destruct (astore o) eqn:So.
     + pose proof (proj2 WF ltac:(rewrite So; discriminate)). lia.
-    + rewrite (proj2 (proj1 WF So)) in V2. cbn [map] in V2. eapply map_eq_nil'; eauto.
+    + rewrite (proj1 WF So) in V2. cbn [map] in V2. eapply map_eq_nil'; eauto.
 Qed.
 
 Lemma arr_assign_ok a o w :
@@ -436,11 +503,12 @@ Proof.
   - unfold avals. cbn [aelems]. rewrite V3.
     eapply trans_keep_map; [exact T12|]. intros i J. split; [eapply holds_in; eauto | apply Dis; auto].
   - destruct WF2 as [WFa WFb]. split; cbn [astore acap aelems]; auto.
-    intro Q. destruct (WFa Q) as [C0 _]. split; auto.
-    assert (Z0 : acap o = 0) by lia.
+    intro Q.
+    assert (Z0 : acap o = 0).
+    { destruct (Nat.eq_dec (acap o) 0) as [Z|Z]; [exact Z|]. exfalso. apply S2; [lia | exact Q]. }
     destruct (astore o) eqn:So.
     + pose proof (proj2 WFo ltac:(rewrite So; discriminate)). lia.
-    + rewrite (proj2 (proj1 WFo So)) in V3. cbn [map] in V3. eapply map_eq_nil'; eauto.
+    + rewrite (proj1 WFo So) in V3. cbn [map] in V3. eapply map_eq_nil'; eauto.
 Qed.
 
 (* the elements the appended array holds, as the frame of the operation *)
@@ -478,8 +546,9 @@ Proof.
         eapply (holds_disjoint _ _ _ _ W H); eauto.
       * unfold n. rewrite <- L1, firstn_all. exact V1.
   - destruct WF1 as [WFa WFb]. split; cbn [astore acap aelems]; auto.
-    intro Q. destruct (WFa Q) as [C0 E0]. split; auto.
-    assert (Z0 : length (aelems a) + n = 0) by lia.
+    intro Q. pose proof (WFa Q) as E0.
+    assert (Z0 : length (aelems a) + n = 0).
+    { destruct (Nat.eq_dec (length (aelems a) + n) 0) as [Z|Z]; [exact Z|]. exfalso. apply S1; [lia | exact Q]. }
     assert (Zs : src = []).
     { unfold src. replace n with 0 by lia. reflexivity. }
     rewrite Zs in V2. cbn [map] in V2. apply map_eq_nil' in V2. rewrite V2, E0. reflexivity.
@@ -517,9 +586,78 @@ Proof.
         eapply (holds_disjoint _ _ _ _ W H); eauto.
       * exact V1.
   - destruct WF1 as [WFa WFb]. split; cbn [astore acap aelems]; auto.
-    intro Q. destruct (WFa Q) as [C0 E0]. split; auto.
-    assert (Z0 : n = 0) by lia.
+    intro Q. pose proof (WFa Q) as E0.
+    assert (Z0 : n = 0).
+    { destruct (Nat.eq_dec n 0) as [Z|Z]; [exact Z|]. exfalso. apply S1; [lia | exact Q]. }
     assert (Zs : src = []).
     { unfold src. rewrite Z0. reflexivity. }
     rewrite Zs in V2. cbn [map] in V2. apply map_eq_nil' in V2. rewrite V2, E0. reflexivity.
+Qed.
+
+(* ---- third round: find, append(const T*, n) from elements outside every container ---- *)
+Lemma arr_find_ok a r w : wfw w -> holds w (aelems a) -> In r (dom (heap w)) ->
+  arr_find a r w = Ok (a, w).
+Proof.
+  intros W H I. unfold arr_find. run (rd_ok w r I).
+  assert (L : forall i, In i (aelems a) -> In i (dom (heap w))) by (intros i J; eapply holds_in; eauto).
+  run (rd_list_ok w _ L). reflexivity.
+Qed.
+
+Lemma arr_append_ids_ok a srcs w :
+  wfw w -> holds w (aelems a ++ srcs) -> holdsb w (ablks a) -> awf a ->
+  exists a' w', arr_append_ids a srcs w = Ok (a', w') /\
+    trans w w' (aelems a) (aelems a') (ablks a) (ablks a') /\
+    avals w' a' = avals w a ++ map (val w) srcs /\ awf a'.
+Proof.
+  intros W H Hb WF. unfold arr_append_ids.
+  pose proof (holds_app_l _ _ _ H) as Ha. pose proof (holds_app_r _ _ _ H) as Ho.
+  destruct (arr_reserve_ok a (length (aelems a) + length srcs) w W Ha Hb WF)
+    as (a1 & w1 & E1 & T1 & V1 & WF1 & C1 & S1 & _). run E1.
+  assert (Hsrc : forall s, In s srcs -> In s (dom (heap w1))).
+  { intros s J. eapply holds_in; [apply (holds_keep _ _ _ _ _ _ srcs T1 H) | exact J]. }
+  destruct (copy_list_ok srcs w1 ltac:(twf T1) Hsrc) as (l' & w' & E2 & T2 & V2). run E2.
+  eexists _, _. split; [reflexivity|]. unfold set_elems. cbn [aelems astore acap].
+  split; [|split].
+  - unfold ablks at 2. cbn [astore]. fold (ablks a1).
+    eapply (trans_seq [] (aelems a1) [] (ablks a1) _ _ _ _ _ _ _ _ _ _ _ _ _ _ _ T1 T2); msolve.
+  - unfold avals. cbn [aelems]. rewrite map_app. f_equal.
+    + transitivity (map (val w1) (aelems a1)); [|exact V1].
+      eapply trans_keep_map; [exact T2|]. intros i J. split; [|tauto].
+      eapply in_new; [exact T1 | exact Ha | exact J].
+    + rewrite V2.
+      eapply trans_keep_map; [exact T1|]. intros i J. split; [eapply holds_in; eauto|].
+      eapply (holds_disjoint _ _ _ _ W H); eauto.
+  - destruct WF1 as [WFa WFb]. split; cbn [astore acap aelems]; auto.
+    intro Q. pose proof (WFa Q) as E0.
+    assert (Z0 : length (aelems a) + length srcs = 0).
+    { destruct (Nat.eq_dec (length (aelems a) + length srcs) 0) as [Z|Z]; [exact Z|]. exfalso. apply S1; [lia | exact Q]. }
+    assert (Zs : srcs = []) by (destruct srcs; [reflexivity | cbn in Z0; lia]).
+    rewrite Zs in V2. cbn [map] in V2. apply map_eq_nil' in V2. rewrite V2, E0. reflexivity.
+Qed.
+
+Lemma arr_append_vals_ok a zs w :
+  wfw w -> holds w (aelems a) -> holdsb w (ablks a) -> awf a ->
+  exists a' w', arr_append_vals a zs w = Ok (a', w') /\
+    trans w w' (aelems a) (aelems a') (ablks a) (ablks a') /\
+    avals w' a' = avals w a ++ zs /\ awf a'.
+Proof.
+  intros W H Hb WF. unfold arr_append_vals.
+  destruct (mk_vals_ok zs w W) as (ts & w1 & E1 & T1 & V1). run E1.
+  assert (H1 : holds w1 (aelems a ++ ts)).
+  { eapply holds_sub; [apply (trans_holds_frame _ _ _ _ _ _ (aelems a) T1); exact H | msolve]. }
+  assert (Hb1 : holdsb w1 (ablks a)) by (eapply holdsb_frame0; eauto).
+  destruct (arr_append_ids_ok a ts w1 ltac:(twf T1) H1 Hb1 WF) as (a' & w2 & E2 & T2 & V2 & WF2). run E2.
+  assert (H2 : holds w2 (aelems a' ++ ts)) by (apply (trans_holds_frame _ _ _ _ _ _ ts T2 H1)).
+  assert (Hr : holds w2 (rev ts)) by (eapply holds_sub; [exact H2 | msolve]).
+  destruct (destroy_list_ok _ w2 ltac:(twf T2) Hr) as (w3 & E3 & T3). run E3.
+  exists a', w3. split; [reflexivity|]. split; [|split].
+  - assert (T12 : trans w w2 (aelems a) (aelems a' ++ ts) (ablks a) (ablks a')).
+    { eapply (trans_seq (aelems a) ts (ablks a) [] _ _ _ _ _ _ _ _ _ _ _ _ _ _ _ T1 T2); msolve. }
+    eapply (trans_seq [] (aelems a') [] (ablks a') _ _ _ _ _ _ _ _ _ _ _ _ _ _ _ T12 T3); msolve.
+  - unfold avals. erewrite trans_keep_map; [| exact T3 |].
+    + fold (avals w2 a'). rewrite V2, V1. f_equal.
+      unfold avals. eapply trans_keep_map; [exact T1|]. intros i J. split; [eapply holds_in; eauto | tauto].
+    + intros i J. split; [eapply holds_in; [exact H2 | apply in_or_app; left; exact J]|].
+      intro K. apply in_rev in K. eapply (holds_disjoint _ _ _ _ ltac:(twf T2) H2); eauto.
+  - exact WF2.
 Qed.
